@@ -1,6 +1,7 @@
 import DuneVerif.Common.Proto
 import DuneVerif.Model.C06
 import DuneVerif.Model.C06Life
+import DuneVerif.Gen.C06
 /-! line-protocol driver for C06 (format: see harness/mpi_c06.cc)
 
   c06 P=<np> B=<items> mode=<f|v> f=<n> ty=<letter> dirs=<f|b|F|B ..> [ctor=<m|M|i|I|c|a|object history>] : E p q [..] [..];S p [..];F p n;...
@@ -207,7 +208,7 @@ def handle (line : String) : String :=
          || f > B || dirs.isEmpty || !(dirs.toList.all fun c => c == 'f' || c == 'b' || c == 'F' || c == 'B')
          || ctor.isEmpty then "bad-op"
       else
-        match (parseLife? ctor B).bind (fun (K, stmts) => runLife (if K = 0 then 32768 else K) B dirs.length stmts),
+        match (parseLife? ctor B).bind (fun (K, stmts) => runLife (if K = 0 then DV.C06.Gen.defaultBufferSize else K) B dirs.length stmts),
               (body.splitOn ";").mapM (parseSeg? P B) with
         | none, _ => "bad-op"
         | _, none => "bad-op"
